@@ -1,6 +1,7 @@
 SPECIFICATION HSpec
 CONSTANTS
   M = 150
+  HugeFix = TRUE
   MaxPh = 2
   MaxFulls = 3
   Alphabet <- AlphaKeys
